@@ -25,6 +25,7 @@ EXPLANATION = (
     "branches are the canonical intersection / (a1 + a2 - intersection) with a zero-union guard; R06.5 a quotient of "
     "separately computed shapely areas has no static upper bound of 1, so the area branch must clamp its result. "
     "Numerical IoU values, disjoint => 0 and shift invariance depend on shapely and are not decided."
+    'The buffered types are decided by evaluating _prepare_geometry once per geometry type; the return paths of both branches are evaluated as functions of (intersection, union) on a grid (zero union, quotient, clamp), whatever the spelling of guard and clamp. '
 )
 ASSUMPTIONS = [
     "shapely's intersection(...).area is symmetric and areas are >= 0 (trusted)",
